@@ -1033,7 +1033,13 @@ class AstEval:
                     if name[0] != "_":
                         self.sym_table[name] = value
             else:
-                self.sym_table[imp.name if imp.asname is None else imp.asname] = getattr(mod, imp.name)
+                try:
+                    value = getattr(mod, imp.name)
+                except AttributeError:
+                    raise ImportError(  # pylint: disable=raise-missing-from
+                        f"cannot import name '{imp.name}' from '{arg.module}'"
+                    )
+                self.sym_table[imp.name if imp.asname is None else imp.asname] = value
 
     async def ast_if(self, arg):
         """Execute if statement."""
